@@ -473,6 +473,22 @@ func (t *trieRun) genCase(c *Ctx, r *RNG, id string) *TrieCase {
 			}
 			tc.Queries = genQueries(r, tc.Keys, t.qbudget)
 		}
+		if r.Intn(16) == 1 {
+			// directed: leaf / element counts right at the multiples of 32, 64 and 128 that the
+			// rank and select indexes and the VLenArray bitmaps are organised in; variable-width values
+			n := []int{31, 32, 33, 63, 64, 65, 95, 96, 97, 127, 128, 129, 191, 192, 193, 255, 256, 257}[r.Intn(18)]
+			keys := make([]string, n)
+			for i := range keys {
+				keys[i] = fmt.Sprintf("%c%03d", 'a'+byte(i%3), i)
+			}
+			sort.Strings(keys)
+			tc.Keys, tc.Kind = keys, "count-at-index-boundary"
+			tc.IDs, tc.VKind = genValueIDs(r, n, VDistinct), vkindNames[VDistinct]
+			if t.encs == nil {
+				tc.Enc = []string{"S16", "RAW", "I32"}[r.Intn(3)]
+			}
+			tc.Queries = genQueries(r, tc.Keys, t.qbudget)
+		}
 		if t.onlyKeys {
 			tc.Queries = append([]string{}, tc.Keys...)
 		}
